@@ -11,6 +11,14 @@ MUTATORS = {'append', 'extend', 'insert', 'remove', 'pop', 'clear', 'sort', 'rev
             'setdefault', 'popitem', '__setitem__', '__delitem__'}
 
 
+# calls that change state shared by the whole interpreter (a later parse runs under the changed setting)
+GLOBAL_SETTERS = {'sys.setrecursionlimit', 'sys.setswitchinterval', 'sys.settrace', 'sys.setprofile', 'random.seed',
+                  'locale.setlocale', 'warnings.simplefilter', 'warnings.filterwarnings', 'gc.disable', 'gc.enable',
+                  'gc.set_threshold', 'os.chdir', 'os.putenv', 'os.environ.update', 'os.environ.setdefault',
+                  'logging.basicConfig', 'logging.disable', 'sys.path.append', 'sys.path.insert',
+                  'setrecursionlimit'}
+
+
 def _all_funcs_with_nested(repo):
     """(FuncDef-like owner, ast.FunctionDef node, qualified name, module) including nested defs"""
     out = []
@@ -103,6 +111,13 @@ def r17_a(ctx):
                                 tgt = (n, 'a class attribute is written through %s' % norm(b))
             if tgt is not None:
                 writes.append(tgt)
+            # process-global interpreter state
+            if isinstance(n, ast.Call) and norm(n.func) in GLOBAL_SETTERS:
+                writes.append((n, 'the interpreter-wide setting %s is changed' % norm(n.func)))
+            if isinstance(n, (ast.Assign, ast.AugAssign, ast.Delete)):
+                for t in (n.targets if isinstance(n, (ast.Assign, ast.Delete)) else [n.target]):
+                    if isinstance(t, ast.Subscript) and norm(t.value) in ('os.environ', 'sys.modules', 'sys.path'):
+                        writes.append((n, 'the process-wide table %s is changed' % norm(t.value)))
         # in-place changes through a local alias of a module-level mutable:  x = G ; x += .. / x |= .. / x.append(..)
         aliases = {}
         for n in ast.walk(node):
